@@ -55,7 +55,9 @@ func p11EmitPrint(o *out, cfg printer.Config, f *ir.File, st map[string]int) (st
 		return "", false
 	}
 	o.emit("print "+e.String(), hexs(text))
-	if p11WellFormedFile(f) {
+	wf := p11WellFormedFile(cfg, f)
+	o.emit("wf "+e.String(), p11B01(wf))
+	if wf {
 		st["wellformed"]++
 		o.emit("accept-print "+e.String()+" "+hexs(text), "ok")
 	} else {
@@ -329,7 +331,7 @@ func p11GenAsmProgram(r *rng, st map[string]int, witnessF10 bool) *build.Context
 			ctx.RET()
 			continue
 		}
-		if r.chance(1, 60) {
+		if r.chance(1, 200) {
 			ctx.CALL(operand.LabelRef("sub"))
 			ctx.RET()
 			ctx.Label("sub")
